@@ -1,10 +1,11 @@
 import re
+import shutil
 import stat
 import subprocess
 import typing
 
 from pygopherd import gopherentry
-from pygopherd.handlers.base import BaseHandler, has_fileno
+from pygopherd.handlers.base import BaseHandler, has_fileno, is_socket
 
 
 class CompressedGopherEntry(gopherentry.GopherEntry):
@@ -83,17 +84,22 @@ class CompressedFileHandler(FileHandler):
     def write(self, wfile):
         decompprog = self.decompressors[self.getentry().realencoding]
         with self.vfs.open(self.getselector(), "rb") as fp:
-            if (
-                self.protocol.check_tls()
-                or not has_fileno(fp)
-                or not has_fileno(wfile)
-            ):
-                # The child cannot be given the descriptors directly: the
-                # output is wrapped in TLS or is an in-memory buffer (WAP
-                # conversion), or the input is a ZIP member.
+            if not has_fileno(fp):
+                # The input is a ZIP member: the child cannot read it itself.
                 resp = subprocess.run(
                     [decompprog], input=fp.read(), capture_output=True
                 )
                 wfile.write(resp.stdout)
-            else:
+            elif has_fileno(wfile) and not is_socket(wfile):
+                # A plain file or pipe: the child may as well write to it.
                 subprocess.run([decompprog], stdin=fp, stdout=wfile)
+            else:
+                # A client connection (possibly wrapped in TLS) or an
+                # in-memory buffer (WAP conversion): the child's output is
+                # relayed by us, so that a client that goes away is noticed
+                # here and logged like any other failed write instead of
+                # silently killing the child.
+                with subprocess.Popen(
+                    [decompprog], stdin=fp, stdout=subprocess.PIPE
+                ) as proc:
+                    shutil.copyfileobj(proc.stdout, wfile)
